@@ -410,6 +410,11 @@ func (vm *VM) callNative(fn *NativeFunction, numVariadic int8, shift StackShift,
 
 	if asGoroutine {
 
+		if simEnabled && simGoNative(vm, fn.value, args, variadic) {
+			vm.fp = fp
+			return
+		}
+
 		// Start a goroutine.
 		if variadic {
 			go fn.value.CallSlice(args)
